@@ -75,7 +75,7 @@ top:
 	}
 	var key []byte
 	for i, da := range meth.Doc.Args {
-		if da.Name[0] == '&' {
+		if 0 < len(da.Name) && da.Name[0] == '&' {
 			break
 		}
 		if 0 < i {
